@@ -104,7 +104,8 @@ class FakeSock:
 
 
 def run_transfer(script, handler, options, mode="octet", default_timeout=2, max_timeout=30,
-                 max_retries=1, max_block_size=65464, wrap=0, filename="f", context=None, shared_log=None, proc=0):
+                 max_retries=1, max_block_size=65464, wrap=0, filename="f", context=None, shared_log=None, proc=0,
+                 sock_class=None):
     """
     Run one real _TftpReadRequest to completion under the fake socket.
     script: list of (t_ticks, addr, datagram).  handler(filename, client, server, context) -> file object.
@@ -125,7 +126,7 @@ def run_transfer(script, handler, options, mode="octet", default_timeout=2, max_
                 log.append(("timeout", int(round(clock[0] * TICK))))
 
     def mk_sock(**k):
-        fs = FakeSock(list(script), clock, log, proc)
+        fs = (sock_class or FakeSock)(list(script), clock, log, proc)
         fs.timeout_class = LoggedTimeout
         return fs
     shim.timeout = LoggedTimeout
